@@ -11,6 +11,8 @@
      [subj k]  manifestutil.Subject of k,
      [sk k]    k's media type is one manifestutil.Subject fetches (image manifest,
                image index, artifact manifest),
+     [bad k]   k has a manifest media type but its bytes are no JSON manifest
+               (content.Successors fails on it),
      [dflt k]  node k's media type is descriptor.DefaultMediaType
                (application/octet-stream), i.e. resolveBlob's descriptor equals
                the node's plain descriptor.
@@ -34,6 +36,8 @@
      fixF1: the referrer pass of gcIndex walks the subject chain and repeats until
             nothing changes (false: the pass as found, which never returns when a
             referrer's subject is not in the rebuilt graph: result RHang).
+     fixRef : Tag refuses a reference that is the digest string of other content than
+            the descriptor's (false: the code as found accepts it as a tag name);
      fixHold: Delete with AutoGC does not queue the referrers of a deleted manifest directly:
             they wait in a pending list and are queued, after each deletion of the cascade,
             once no surviving (not queued) manifest links to them other than as its subject.
@@ -140,7 +144,7 @@ Record orders := mkOrd { o_save1 : list nat; o_save2 : list nat; o_gc1 : list na
                          o_del : list (list nat * list nat) }.
 Definition ord0 := mkOrd [] [] [] [] [].
 
-Inductive result := ROk | RAlreadyExists | RNotFound | RInvalidReference | RHang | ROutOfFuel.
+Inductive result := ROk | RAlreadyExists | RNotFound | RInvalidReference | RHang | ROutOfFuel | RBadContent.
 
 Inductive rdig := DPlain (k : nat) | DFull (d : desc) | DBlob (k : nat) | DNotFound.
 
@@ -150,8 +154,9 @@ Section Universe.
   Variable succs : nat -> list nat.
   Variable subj : nat -> option nat.
   Variable sk : nat -> bool.
+  Variable bad : nat -> bool.
   Variable dflt : nat -> bool.
-  Variable fixF2 fixA fixF1 fixHold : bool.
+  Variable fixF2 fixA fixF1 fixHold fixRef : bool.
 
   (* ---------- graph.Memory.IndexAll into a node set ---------- *)
   Fixpoint visit (fuel : nat) (present : nat -> bool) (n : nat) (g : list nat) : list nat :=
@@ -204,13 +209,16 @@ Section Universe.
   (* Store.Push of node k with its plain descriptor *)
   Definition st_push (cfg : config) (o : orders) (k : nat) (s : store) : store * result :=
     if mem k (blobs s) then (s, RAlreadyExists)
+    else if bad k then (s, RBadContent)    (* graph.Index fails: the blob is removed again *)
     else
       let s1 := mkStore (k :: blobs s) (res s) (add k (gr s)) (disk s) in
       if mf k then (st_tag cfg o (plain k) (RDig k) s1, ROk) else (s1, ROk).
 
   (* Store.Tag (reference non-empty) *)
   Definition st_tagop (cfg : config) (o : orders) (d : desc) (r : ref) (s : store) : store * result :=
-    if mem (d_node d) (blobs s) then (st_tag cfg o d r s, ROk) else (s, RNotFound).
+    if fixRef && negb (match r with RDig k => Nat.eqb k (d_node d) | RTag _ => true end)
+    then (s, RInvalidReference)
+    else if mem (d_node d) (blobs s) then (st_tag cfg o d r s, ROk) else (s, RNotFound).
 
   (* Store.Untag (reference non-empty) *)
   Definition st_untag (cfg : config) (o : orders) (r : ref) (s : store) : store * result :=
@@ -447,11 +455,12 @@ Section Universe.
   Definition gc_sweeps_stray (k : stray) : bool := match k with SValidName => true | _ => false end.
 
   (* ---------- vocabulary of the C08 statements (definitions only) ---------- *)
-  (* a tag name is never the digest string of another node *)
+  (* a reference in digest form names the descriptor's own content (enforced by Tag when
+     fixRef; the hypothesis of the pre-fix instance) *)
   Definition wf_tag (d : desc) (r : ref) : Prop := match r with RDig k => k = d_node d | RTag _ => True end.
   (* only non-manifest content is ever put into blobs/ behind the store's back *)
   Definition wf_op (o : op) : Prop :=
-    match o with OTag d r => wf_tag d r | OInject k => mf k = false | _ => True end.
+    match o with OInject k => mf k = false | _ => True end.
   Definition wf_history (h : list (op * orders)) : Prop := Forall (fun oo => wf_op (fst oo)) h.
   Definition no_reopen (h : list (op * orders)) : Prop := Forall (fun oo => fst oo <> OReopen) h.
 
